@@ -1,6 +1,7 @@
 package props
 
 import (
+	"context"
 	"fmt"
 	"math/rand"
 	"net/url"
@@ -29,11 +30,18 @@ type c10Scenario struct {
 // first served fault-free on the same provider (so that anything the provider remembers from a good
 // request - keys, metadata, service providers - is in place when the fault strikes).
 func (sc *c10Scenario) Run(o env.Opts, plan sim.FaultPlan, warm bool) (*env.Env, *env.Call) {
+	return sc.RunTimed(o, plan, nil, warm)
+}
+
+// RunTimed additionally installs a hook that runs at the start of every storage call (delays).
+func (sc *c10Scenario) RunTimed(o env.Opts, plan sim.FaultPlan, before func(ctx context.Context, tag, op string, occ int), warm bool) (*env.Env, *env.Call) {
 	e, send := sc.run(o)
 	if warm {
 		send()
 	}
 	e.W.Plan = plan
+	e.W.Before = before
+	e.W.PartialDelay = 15 * time.Millisecond
 	return e, send()
 }
 
@@ -251,6 +259,37 @@ func c10Single(scs []c10Scenario, pairs, warm bool) func(r *core.Run, idx int, r
 						r.Count("single_faults_injected_after_good_request", 1)
 					}
 					c10Judge(r, wl, idx, sc.Name+"|"+p.Op+"|"+k, sc, call, []faultPos{f1})
+					// the same fault with other relative timing: where a handler issues storage calls side by side, which
+					// result arrives first must not matter (the failing call is slow / every other call is slow); user
+					// lookups additionally fail after having delivered part of the record
+					for _, timing := range []string{"failing_call_slow", "other_calls_slow", "partial_record"} {
+						kind := k
+						if timing == "partial_record" {
+							if !strings.HasPrefix(p.Op, "SetUserinfo") {
+								continue
+							}
+							kind = sim.FaultPartial
+						}
+						ft := faultPos{p.Op, p.Occ, kind}
+						firedT := map[string]bool{}
+						slowFailing := timing == "failing_call_slow"
+						before := func(_ context.Context, _, op string, occ int) {
+							if (op == ft.Op && occ == ft.Occ) == slowFailing {
+								time.Sleep(15 * time.Millisecond)
+							}
+						}
+						if timing == "partial_record" {
+							before = nil
+						}
+						_, callT := sc.RunTimed(sc.Opts, planFor([]faultPos{ft}, firedT), before, warm)
+						if !firedT[ft.String()] {
+							r.Count("fault_not_reached", 1)
+							continue
+						}
+						r.Eval(wl + "|" + sc.Name + "|" + ft.String() + "|" + timing)
+						r.Count("single_faults_injected_with_other_timing", 1)
+						c10Judge(r, wl, idx, sc.Name+"|"+p.Op+"|"+kind+"|"+timing, sc, callT, []faultPos{ft})
+					}
 					continue
 				}
 				// second fault at every call that still happens after the first
@@ -344,11 +383,12 @@ func init() {
 			}
 			sort.Strings(names)
 			r.Extra("scenarios", names)
-			r.Rule = "for each endpoint scenario (SSO redirect/POST signed/unsigned, callback POST/Redirect/body, logout POST/redirect, attribute query, metadata signed/unsigned, certificate, readiness, health) a fault-free recording run yields the sequence of storage calls; then every (operation, occurrence) x fault kind {error; for the two key getters also nil record, key without certificate, certificate without key, empty certificate} is injected singly (quick and thorough; once on a fresh provider and once right after the same request was served fault-free by the same provider) and in pairs (thorough: the second fault at every call that still happens after the first, sequence re-recorded); the signing scenarios are re-run with unusable configured signature algorithms. After the first fault the reply must be HTTP 5xx or a non-Success SAML response: no panic, no Success, no user canary, no signed metadata, no persistence, no login redirect. Distinct = (scenario, fault positions and kinds); all non-trivial."
+			r.Rule = "for each endpoint scenario (SSO redirect/POST signed/unsigned, callback POST/Redirect/body, logout POST/redirect, attribute query, metadata signed/unsigned, certificate, readiness, health) a fault-free recording run yields the sequence of storage calls; then every (operation, occurrence) x fault kind {error; for the two key getters also nil record, key without certificate, certificate without key, empty certificate} is injected singly (quick and thorough; once on a fresh provider and once right after the same request was served fault-free by the same provider; each also with the failing call delayed, with all other calls delayed, and - user lookups - failing after part of the record was delivered) and in pairs (thorough: the second fault at every call that still happens after the first, sequence re-recorded); the signing scenarios are re-run with unusable configured signature algorithms. After the first fault the reply must be HTTP 5xx or a non-Success SAML response: no panic, no Success, no user canary, no signed metadata, no persistence, no login redirect. Distinct = (scenario, fault positions and kinds); all non-trivial."
 			r.SetExhaustive(true)
 			r.Assume("exhaustive over the listed scenarios, their recorded call sequences and the listed fault kinds; other requests may reach other call sequences")
 			r.Require("single_faults_injected", 120)
 			r.Require("single_faults_injected_after_good_request", 60)
+			r.Require("single_faults_injected_with_other_timing", 200)
 			r.Require("algorithm_faults_injected", 15)
 			wls := []core.Workload{
 				{Name: "single_faults", N: len(scs), Fn: c10Single(scs, false, false)},
